@@ -268,9 +268,9 @@ def tlc_models(ctx):
     """The exhaustive runs (independent of the real-code runs; overlapped with them)."""
     q = ctx.quick
     ctx.model_check("ToNsq", "ToNsq_mc.cfg", timeout=900, label="intended reader = Records, all inputs <= 7")
-    lead = ctx.model_check("ToNsq", "ToNsq_asis.cfg", expect_ok=False, timeout=900, label="reader as implemented (lead)")
-    ctx.notes["tonsq_model_lead"] = ("TLC: the reader as implemented (last byte stripped unconditionally) violates %s"
-                                     % lead.violated) if not lead.ok else "TLC: the reader as implemented satisfies Records"
+    lead = ctx.model_check("ToNsq", "ToNsq_asis.cfg", expect_ok=False, timeout=900, label="reader before the fix (lead)")
+    ctx.notes["tonsq_model_lead"] = ("TLC: the reader variant Trim=always (last byte stripped unconditionally; the code before "
+                                     "the fix) violates %s" % lead.violated) if not lead.ok else "TLC: Trim=always satisfies Records"
     m = re.search(r"input = (<<.*?>>)", lead.out)
     if m and not lead.ok:
         ctx.notes["tonsq_model_lead"] += " on input " + m.group(1)
